@@ -95,14 +95,16 @@ impl From<ctap2::StatusCode> for WebauthnError {
     }
 }
 
-/// Returns a decoded [String] if the domain name is punycode otherwise
-/// the original string reference [str] is returned.
+/// Returns the ASCII (punycode, lower case) form of the domain, which is the form the public suffix
+/// table is keyed by, or `None` if it is not a valid domain name.
 fn decode_host(host: &str) -> Option<Cow<str>> {
-    if host.split('.').any(|s| s.starts_with("xn--")) {
-        let (decoded, result) = idna::domain_to_unicode(host);
-        result.ok().map(|_| Cow::from(decoded))
-    } else {
+    if host.is_ascii()
+        && !host.bytes().any(|b| b.is_ascii_uppercase())
+        && !host.split('.').any(|s| s.starts_with("xn--"))
+    {
         Some(Cow::from(host))
+    } else {
+        idna::domain_to_ascii(host).ok().map(Cow::from)
     }
 }
 
